@@ -55,6 +55,9 @@ def analyze(h, tier: str, shard: Dict[str, Any], mode: str, exclude, region, tim
     from crosshair.condition_parser import (POSTCONDITION, PRECONDITION, ConditionExpr, Conditions,
                                             condition_parser)
     import crosshair.core_and_libs  # noqa: F401  (loads opcode patches and library models)
+    from engine import chpatch
+
+    chpatch.apply()
     from crosshair.core import DEFAULT_OPTIONS, AnalysisOptionSet, analyze_calltree
     from crosshair.fnutil import resolve_signature
     from crosshair.statespace import VerificationStatus
